@@ -47,9 +47,34 @@ def _mb(o) -> bool:
     raise Unsupported("boolean operation between a mask and " + type(o).__name__)
 
 
+class Stamp(Stub):
+    """The label of the generic row."""
+
+    def isoformat(self, *a, **k):
+        return "<stamp>"
+
+    def __str__(self):
+        return "<stamp>"
+
+
 class Idx(Stub):
     def __init__(self, present: bool):
         self.present = bool(present)
+
+    def __iter__(self):
+        return iter([Stamp()] if self.present else [])
+
+    def to_list(self):
+        return list(self)
+
+    tolist = to_list
+
+    def _abs_len(self):
+        return 1 if self.present else 0
+
+    @property
+    def empty(self):
+        return not self.present
 
     def __getitem__(self, k):
         if isinstance(k, Mask):
@@ -234,3 +259,125 @@ class PDRow(Stub):
         if axis not in (1, "columns") or k or not isinstance(objs, dict):
             raise Unsupported("pd.concat other than concat({name: series}, axis=1)")
         return dict(objs)
+
+
+class RowFrame(Stub):
+    """A frame under the one-row abstraction: the generic row is present or filtered out; each column holds its value at that row."""
+    _settable = True
+
+    def __init__(self, cols, present: bool = True):
+        self._cols = {k: (v if isinstance(v, Ser) else Ser(v)) for k, v in cols.items()}
+        self._present = bool(present)
+
+    def _col(self, c):
+        if c not in self._cols:
+            from .pyinterp import InterpRaised
+            raise InterpRaised("KeyError", str(c))
+        return Ser(self._cols[c].v if self._present else ABSENT)
+
+    def __getattr__(self, name):
+        if name.startswith("_"):
+            raise AttributeError(name)
+        if name in self.__dict__.get("_cols", {}):
+            return self._col(name)
+        raise AttributeError(name)
+
+    def __getitem__(self, k):
+        if isinstance(k, str):
+            return self._col(k)
+        if isinstance(k, list) and all(isinstance(x, str) for x in k):
+            for x in k:
+                self._col(x)
+            return RowFrame({x: self._cols[x] for x in k}, self._present)
+        if isinstance(k, Mask):
+            return RowFrame(self._cols, self._present and k.b)
+        raise Unsupported("frame[...] with a key that is neither a column, a column list nor a mask")
+
+    def __setitem__(self, k, v):
+        if not isinstance(k, str):
+            raise Unsupported("frame[...] = ... with a key that is not a column")
+        self._cols[k] = Ser(_row(v)) if isinstance(v, Ser) else Ser(v if _num(v) else (_ for _ in ()).throw(Unsupported("column store of a non-number")))
+
+    @property
+    def columns(self):
+        return list(self._cols)
+
+    @property
+    def index(self):
+        return Idx(self._present)
+
+    @property
+    def empty(self):
+        return not self._present
+
+    def _abs_len(self):
+        return 1 if self._present else 0
+
+    @property
+    def loc(self):
+        return _RowLoc(self)
+
+    def copy(self, deep=True):
+        return RowFrame(self._cols, self._present)
+
+    def reindex(self, index=None, **k):
+        if k or not isinstance(index, Idx):
+            raise Unsupported("frame.reindex() other than reindex(<index>)")
+        if not index.present:
+            return RowFrame(self._cols, False)
+        return RowFrame(self._cols if self._present else {c: Ser(math.nan) for c in self._cols}, True)
+
+    def dropna(self, **k):
+        if k:
+            raise Unsupported("frame.dropna() with arguments")
+        return RowFrame(self._cols, self._present and not any(_isnan(s.v) for s in self._cols.values()))
+
+    def rename(self, columns=None, **k):
+        if k or not isinstance(columns, dict):
+            raise Unsupported("frame.rename() other than rename(columns={...})")
+        return RowFrame({columns.get(c, c): v for c, v in self._cols.items()}, self._present)
+
+    def drop(self, columns=None, **k):
+        if k or columns is None:
+            raise Unsupported("frame.drop() other than drop(columns=[...])")
+        cs = [columns] if isinstance(columns, str) else list(columns)
+        return RowFrame({c: v for c, v in self._cols.items() if c not in cs}, self._present)
+
+    def where(self, cond, other=math.nan, **k):
+        if k or not isinstance(cond, Mask) or not _isnan(other):
+            raise Unsupported("frame.where() other than where(<mask>)")
+        return RowFrame(self._cols if cond.b else {c: Ser(math.nan) for c in self._cols}, self._present)
+
+    def mask(self, cond, other=math.nan, **k):
+        if k or not isinstance(cond, Mask):
+            raise Unsupported("frame.mask() other than mask(<mask>)")
+        return self.where(Mask(not cond.b), other)
+
+    def describe(self):
+        return {"present": self._present, "values": {c: (None if _isnan(s.v) else s.v) for c, s in self._cols.items()}}
+
+
+class _RowLoc(Stub):
+    def __init__(self, fr: RowFrame):
+        self._fr = fr
+
+    def __getitem__(self, k):
+        if isinstance(k, Mask):
+            return self._fr[k]
+        if isinstance(k, tuple) and len(k) == 2 and isinstance(k[0], Mask):
+            sub = self._fr[k[0]]
+            return sub[k[1]]
+        raise Unsupported("frame.loc[...] other than loc[mask] / loc[mask, columns]")
+
+    def __setitem__(self, k, v):
+        if not (isinstance(k, tuple) and len(k) == 2 and isinstance(k[0], Mask) and isinstance(k[1], str)):
+            raise Unsupported("frame.loc[...] = ... other than loc[mask, column] = value")
+        if not self._fr._present or not k[0].b:
+            return
+        if isinstance(v, Ser):
+            # assignment aligns on the index: a row the right-hand side does not have becomes NaN
+            self._fr._cols[k[1]] = Ser(math.nan if v.v is ABSENT else v.v)
+        elif _num(v):
+            self._fr._cols[k[1]] = Ser(v)
+        else:
+            raise Unsupported("frame.loc[mask, column] = <neither a series nor a number>")
